@@ -46,7 +46,61 @@ def contexts(machine, info, prog_cfg0):
             mixed.append(("P", v.idx, v.name, 1))
     if full:
         ctxs += [("full", full), ("one", one), ("mixed", mixed)]
+    # one context per constant that a condition of the machine compares against: every integer variable holds that constant (clamped to its
+    # type), so that each `n == K` / `n >= K` is taken both ways from every state and on every symbol, end-of-input included
+    consts = condition_constants(machine)
+    for kv in consts[:4]:
+        pokes = []
+        for v in info.vars:
+            o = v.out
+            if o.type == OST.INT:
+                from vlib import carith
+                lo, hi = carith.type_range(machine.var_type(o))
+                pokes.append(("P", v.idx, v.name, min(max(kv, lo), hi)))
+            elif o.type == OST.STR:
+                cap = o.effective_string_size()
+                pokes.append(("Q", v.idx, v.name, b"ab"[:cap]))
+        if pokes:
+            ctxs.insert(min(len(ctxs), 1 + 2 * len([c for c in ctxs if c[0].startswith("const")])), ("const%d" % kv, pokes))
     return ctxs
+
+
+def condition_constants(machine):
+    """Integer literals that occur in the conditions of the machine (condition points and conditional actions), most frequent first."""
+    import collections
+    found = collections.Counter()
+
+    def scan(e, depth=0):
+        if e is None or depth > 8:
+            return
+        if isinstance(e, nmfu.LiteralIntegerExpr):
+            v = e.value
+            if isinstance(v, bool):
+                return
+            if isinstance(v, int) and -(2 ** 31) < v < 2 ** 31:
+                found[v] += 1
+            return
+        for attr in ("children", "left", "right", "expr", "index", "append_value"):
+            c = getattr(e, attr, None)
+            if isinstance(c, (list, tuple)):
+                for x in c:
+                    scan(x, depth + 1)
+            elif c is not None and not isinstance(c, (str, int, bytes)):
+                scan(c, depth + 1)
+
+    def scan_action(a):
+        for sub in a.all_subactions():
+            if isinstance(sub, nmfu.ConditionalAction):
+                for c in sub.conditions:
+                    scan(getattr(c, "expr", None))
+
+    for st_ in machine.states:
+        for t in st_.transitions:
+            if isinstance(t, nmfu.DFConditionalTransition):
+                scan(getattr(t.condition, "expr", None))
+            for a in t.actions:
+                scan_action(a)
+    return [k for k, _ in found.most_common() if k not in (0,)]
 
 
 def apply_pokes(cfg, pokes):
@@ -222,10 +276,13 @@ def case_strategy(draw, tier):
         choices = draw(st.lists(st.lists(st.integers(0, 4095), min_size=0, max_size=10), min_size=4, max_size=8))
         return prog, argv, choices
     fam = draw(st.integers(0, 9))
+    if fam == 2:
+        fam = 0
     if fam in (0, 1):
-        prog, datas = draw(gen.break_loop_program() if fam == 0 else gen.last_foreach_program())
+        # (with EOF support: end() in every state of the loop, with the break condition true and false)
+        prog, datas = draw(gen.break_loop_program(eof=draw(st.booleans())) if fam == 0 else gen.last_foreach_program())
         argv = list(prog.argv) + draw(options.codegen_options(indirect=None))
-        return prog, argv, datas[:8]
+        return prog, argv, datas[:10]
     mode = draw(st.sampled_from(["plain", "plain", "yield", "eof", "both"]))
     cfg = gen.GenConfig(max_depth=2, max_stmts=4, allow_yield=mode in ("yield", "both"), allow_end=mode in ("eof", "both"),
                         kinds={"yield": 2 if mode in ("yield", "both") else 0, "foreach": 2}, allow_last=True)
@@ -241,7 +298,7 @@ def worker(job):
 
     def body(val):
         prog, argv, choices = val
-        check_program(shard, prog, argv, choices, nctx=2 if tier == "quick" else 4)
+        check_program(shard, prog, argv, choices, nctx=4 if tier == "quick" else 7)
 
     common.hyp_run(shard, body, case_strategy(tier), n, seed, known_keys=known, stop_at=stop_at)
     return shard
@@ -254,7 +311,7 @@ def regress_worker(job):
     with open(path) as fh:
         d = json.load(fh)
     try:
-        check_program(shard, d["source"], d["argv"], d.get("choices", [[9, 9, 9, 9, 17, 25, 33]]), nctx=4)
+        check_program(shard, d["source"], d["argv"], d.get("choices", [[9, 9, 9, 9, 17, 25, 33]]), nctx=7)
     except Failure as f:
         if f.sig in known:
             shard.known_hits[f.sig] += 1
